@@ -41,7 +41,7 @@ fn creator_decl(w: &World, ty: &Ty) -> Option<usize> {
     w.decl_tok.get(&Bind::Type(idx)).copied()
 }
 
-fn role_class(w: &World, i: usize) -> &'static str {
+pub fn role_class(w: &World, i: usize) -> &'static str {
     match &w.tok(i).role {
         Role::Decl(Bind::Type(_)) => "decl-type",
         Role::Decl(Bind::Proc(_)) => "decl-proc",
@@ -79,7 +79,17 @@ fn compare(w: &World, i: usize, request: &'static str, got: nav::HandlerResult<O
                     want_bytes.as_ref().map(|b| &w.text()[b.clone()])
                 );
                 if ambiguous {
-                    r.fail("name-denotes-global-and-local", what, detail());
+                    // the signature names request, occurrence class and what was wanted / returned, so
+                    // that only the recorded manifestations of the recorded root cause are tolerated
+                    let kind = |b: &Option<std::ops::Range<usize>>| match b {
+                        None => "none",
+                        Some(b) => match w.laid.ranges.iter().position(|r0| r0 == b).map(|t| &w.tok(t).role) {
+                            Some(Role::Decl(Bind::Param(..))) | Some(Role::Decl(Bind::Local(..))) => "local-declaration",
+                            Some(Role::Decl(Bind::Type(_))) | Some(Role::Decl(Bind::Proc(_))) => "global-declaration",
+                            _ => "elsewhere",
+                        },
+                    };
+                    r.fail(format!("name-denotes-global-and-local|{}|{}|want:{}|got:{}", request, role_class(w, i), kind(&want_bytes), kind(&got_bytes)), what, detail());
                 } else {
                     r.fail(format!("wrong-{}|{}", request, role_class(w, i)), what, detail());
                 }
@@ -128,7 +138,7 @@ impl Check for Goto {
                     cross = true;
                 }
             }
-            if !r.failures.is_empty() && r.failures.iter().any(|f| f.sig != "name-denotes-global-and-local") {
+            if !r.failures.is_empty() && r.failures.iter().any(|f| !f.sig.starts_with("name-denotes-global-and-local")) {
                 break;
             }
         }
